@@ -49,7 +49,8 @@ REQUIRED = ["ctl_runs", "ctl_deferred_flushes", "ctl_partial_writes",
             "iow_fast_sends", "iow_streams_compared",
             "iow_connect_with_bytes_already_queued", "ctl_message_objects_sent",
             "iow_sends_on_a_closed_worker",
-            "ctl_connections_disconnected_again_by_a_down_listener"]
+            "ctl_connections_disconnected_again_by_a_down_listener",
+            "ctl_message_objects_changed_after_send"]
 TIMEOUT = {"quick": 1500, "thorough": 10800}
 
 
@@ -253,6 +254,12 @@ def run_ctl (scn, schedule, policy, seed):
           raise
         except BaseException:
           obs["raised"].append(("send", traceback.format_exc()[-500:]))
+        if payload is not data and counts[ci] % 2:
+          # "build one message, send it, change a field, send it again": what
+          # was handed over is what it was when it was handed over
+          obs["objects_changed_after_send"] = obs.get("objects_changed_after_send", 0) + 1
+          payload.xid = 0x7fff0000 | counts[ci]
+          payload.body = b"changed after send"
       elif k == "flush":
         c.block(sender_quiet, None, "flush")
       elif k == "drain":
@@ -395,6 +402,8 @@ def do_ctl (scn, schedule, policy, seed, rep):
   nre = obs.get("reclosed", 0) + getattr(obs["nexus"], "reclosed", 0)
   if nre: rep.count("ctl_connections_disconnected_again_by_a_down_listener", nre)
   if obs.get("objects_sent"): rep.count("ctl_message_objects_sent", obs["objects_sent"])
+  if obs.get("objects_changed_after_send"):
+    rep.count("ctl_message_objects_changed_after_send", obs["objects_changed_after_send"])
   ds = obs["ds"]
   nd = sum(1 for l in obs["callers"] if ds is not None and l == ds.lid)
   if nd:
